@@ -453,6 +453,25 @@ pub fn drain_cases(args: &Args, mut out: Out) -> usize {
         };
         cases.push((format!("{} players with one combo each, full run", np), Cfg { flop, ranges, from: (0, 1), to: (48, 49), scoped: false }));
     }
+    // weights at the ends of [0,1]: every combo with weight exactly 0 (the grammar accepts 'QQ:0'), a zero among ordinary weights,
+    // weights whose product underflows to 0, and weight 1 throughout
+    let zero = |a: usize, b: usize| vec![Entry { a, b, m: 0, e: 0 }];
+    cases.push(("one combo of weight 0, full run".into(), Cfg { flop, ranges: vec![zero(0, 1)], from: (0, 1), to: (48, 49), scoped: false }));
+    cases.push(("weight 0 beside weight 1, full run".into(), Cfg { flop, ranges: vec![one(2, 3), zero(0, 1)], from: (0, 1), to: (48, 49), scoped: false }));
+    {
+        let mut mixed: Vec<Entry> = shuffled[..30].to_vec();
+        for (i, e) in mixed.iter_mut().enumerate() {
+            if i % 3 == 0 {
+                e.m = 0;
+                e.e = 0;
+            }
+        }
+        cases.push(("30 combos, every third of weight 0, a few positions".into(), Cfg { flop, ranges: vec![mixed.clone(), shuffled[40..60].to_vec()], from: (7, 8), to: (7, 12), scoped: true }));
+        let tiny: Vec<Entry> = shuffled[100..110].iter().map(|e| Entry { a: e.a, b: e.b, m: 1, e: 63 }).collect();
+        let tiny2: Vec<Entry> = shuffled[200..210].iter().map(|e| Entry { a: e.a, b: e.b, m: 1, e: 63 }).collect();
+        let tiny3: Vec<Entry> = shuffled[300..310].iter().map(|e| Entry { a: e.a, b: e.b, m: 1, e: 63 }).collect();
+        cases.push(("three players with weights 2^-63 (the product underflows), a few positions".into(), Cfg { flop, ranges: vec![tiny, tiny2, tiny3], from: (9, 10), to: (9, 14), scoped: true }));
+    }
     // no player at all; huge tables whose last player has no hands (nothing to enumerate, whatever the product of the sizes)
     cases.push(("no players, full run".into(), Cfg { flop, ranges: vec![], from: (0, 1), to: (48, 49), scoped: false }));
     cases.push(("no players, scoped".into(), Cfg { flop, ranges: vec![], from: (0, 1), to: (6, 26), scoped: true }));
